@@ -75,6 +75,11 @@ def run_inovesa(tg, args, timeout=120, env_extra=None):
     return r.returncode, r.stdout, r.stderr
 
 
+def laststep_of(steps, rot):
+    """mirror of main(): uint32_t laststep = std::ceil(steps*rotations*(1.0-1e-12)), all doubles (IEEE products, as Python's)"""
+    return int(math.ceil(steps * rot * (1.0 - 1e-12)))
+
+
 class Cfg:
     """one generated configuration; `args()` is the command line, `replay()` the JSON form"""
 
@@ -106,8 +111,7 @@ class Cfg:
         return sum(1 for c in self.currents if c > 0)
 
     def laststep(self):
-        # uint32_t laststep = std::ceil(steps*rotations*(1.0-1e-12)), all doubles (IEEE products, as Python's)
-        return int(math.ceil(float(self.steps) * float(self.rot) * (1.0 - 1e-12)))
+        return laststep_of(float(self.steps), float(self.rot))
 
     def laststep_pinned(self):
         # before the repair: rotations narrowed to float, no guard factor
